@@ -26,7 +26,7 @@ var c10Times = []int64{10000, 10500, 12000, 12001, 12500, 15000, 16000, 20000}
 func c10Configs(tier string) []c10Cfg {
 	maxL := 4
 	if tier == "thorough" {
-		maxL = 5
+		maxL = 6
 	}
 	var out []c10Cfg
 	for _, to := range []int64{2000, 3000} {
@@ -182,6 +182,9 @@ func (c10) Plan(tier string) []fw.Unit {
 		if c.MaxL >= 5 || c.Keys > 1 && c.MaxL >= 4 {
 			shards = 12
 		}
+		if c.MaxL >= 6 {
+			shards = 48
+		}
 		for s := 0; s < shards; s++ {
 			us = append(us, fw.Unit{Check: "C10", Kind: "enum", Tier: tier, Spec: fw.Spec(enumSpec{Cfg: i, Shard: s, Shards: shards})})
 		}
@@ -278,7 +281,7 @@ func (c10) Describe(tier string) fw.Description {
 	return fw.Description{
 		Level: "model_checking",
 		Rule: "bounded-exhaustive: all arrival sequences of length 1..L over 8 timestamps (gaps below / equal to / 1 ms above the timeout, out-of-order arrivals) x timeout 2s|3s x MAXOUTOFORDERNESS 0|3s x key assignments over 1..2 keys, followed by a far sentinel of another key; each run under BOTH feed policies (lazy: all rows emitted before the expiry goroutine runs; eager: every goroutine runs to quiescence after each Emit) on the real engine with the virtual clock; oracle = exactly the stated constraints (each accepted row in exactly one session of its key, consecutive reported timestamps <= timeout apart, window_start = earliest, window_end = latest + timeout, delivered only once the watermark of the rows emitted so far >= end, eager == lazy for in-order input); a case = one input; non-trivial = >= 2 sessions delivered",
-		Bounds:      map[string]any{"max_len": map[string]int{"quick": 4, "thorough": 5}, "timestamps_ms": c10Times},
+		Bounds:      map[string]any{"max_len": map[string]int{"quick": 4, "thorough": 6}, "timestamps_ms": c10Times},
 		Assumptions: []string{"ALLOWEDLATENESS = 0", "the schedule dimension is covered by the two extreme feed policies here and by C02's schedule exploration of the session window"},
 	}
 }
